@@ -372,6 +372,97 @@ func interleave(lim [4]uint32, pre []mstore.Op, target string, litA int, other m
 	return res, nil
 }
 
+// interleaveN: n sessions send APPEND to the same mailbox; every one is parked just before its write transaction (all
+// have passed the limit checks of their read transaction), then all are released.
+func interleaveN(lim [4]uint32, pre []mstore.Op, target string, lit, n, nlits int) (*interResult, error) {
+	gate := &Gate{}
+	lits := newLits(nlits)
+	w, err := mstore.NewWorld(mstore.Config{Burn: 20, Limits: &lim, DB: gateIface{inner: gluon.VerifSQLiteClientInterface(), g: gate}}, lits)
+	if err != nil {
+		return nil, err
+	}
+	defer w.Close()
+	res := &interResult{g0: w.G0}
+	steps, _, err := mstore.Replay(w, pre, func(i int, o mstore.Op, ob mstore.Obs, before, aft mstore.Dump) bool { return true })
+	if err != nil {
+		return nil, err
+	}
+	res.steps = steps
+	clients := append([]*imapc.Client{}, w.Sess...)
+	for len(clients) < n {
+		c, err := w.S.Login()
+		if err != nil {
+			return nil, err
+		}
+		defer c.Close()
+		clients = append(clients, c)
+	}
+	clients = clients[:n]
+	gate.ArmN("write", n)
+	type done struct {
+		r   imapc.Result
+		err error
+	}
+	ch := make(chan done, n)
+	for _, c := range clients {
+		c := c
+		go func() {
+			r, err := c.Append(target, "", lits.Bytes[lit])
+			ch <- done{r, err}
+		}()
+	}
+	var early []done
+	allParked := false
+	for !allParked && len(early) < n {
+		select {
+		case <-gate.Parked():
+			allParked = true
+		case d := <-ch:
+			early = append(early, d) // refused before its write transaction
+		case <-time.After(60 * time.Second):
+			gate.Release()
+			return nil, fmt.Errorf("interleaveN: APPENDs neither parked nor completed")
+		}
+	}
+	gate.Disarm()
+	gate.Release()
+	okCount := 0
+	for i := 0; i < n; i++ {
+		var d done
+		if i < len(early) {
+			d = early[i]
+		} else {
+			select {
+			case d = <-ch:
+			case <-time.After(60 * time.Second):
+				return nil, fmt.Errorf("interleaveN: parked APPEND did not complete")
+			}
+		}
+		if d.err != nil {
+			return nil, d.err
+		}
+		if d.r.Status == "OK" {
+			okCount++
+		}
+	}
+	res.aObs = mstore.Obs{Class: fmt.Sprintf("%d-ok", okCount)}
+	for i := 0; i < n; i++ {
+		res.steps = append(res.steps, mstore.Step{IKind: "check", ISess: i, IName: target})
+	}
+	for i := 0; i < n; i++ {
+		res.steps = append(res.steps, mstore.Step{IKind: "write", ISess: i, ILit: lit, IRem: "ok"})
+	}
+	after, err := w.DumpAll()
+	if err != nil {
+		return nil, err
+	}
+	res.final = after
+	if vs := withinLimits(lim, after, w.Injected); len(vs) > 0 {
+		res.viol = &vs[0]
+	}
+	return res, nil
+}
+
 func runC17(ctx *common.Ctx) error {
 	res := ctx.Res
 	rng := ctx.Rng
@@ -556,6 +647,52 @@ func runC17(ctx *common.Ctx) error {
 		names := mstore.NewNames()
 		lits := newLits(nlits)
 		lines = append(lines, mstore.CoqCase(id, &lim, lits, ir.g0, names, ir.steps, ir.final))
+	}
+
+	// ---- N sessions APPEND at once when exactly one more message / UID fits ----
+	nsim := ctx.Budget(4, 30)
+	for ci := 0; ci < nsim; ci++ {
+		id++
+		p := rng.Range(0, 3)                            // messages already in the target
+		n := rng.Range(3, 4)                            // simultaneous sessions
+		uidLimit := ci%2 == 0                           // otherwise the message-count limit
+		lim := [4]uint32{6, 50, uint32(p + 2), 1 << 31} // UIDNEXT = p+1: one more UID may be handed out
+		kind := "uid"
+		if !uidLimit {
+			lim = [4]uint32{6, uint32(p + 1), 50, 1 << 31}
+			kind = "message"
+		}
+		target := []string{"INBOX", "t"}[rng.Pick(2)]
+		pre := []mstore.Op{{Kind: "create", Name: "t", RemoteOK: true}}
+		for i := 0; i < p; i++ {
+			pre = append(pre, mstore.Op{Kind: "append", Name: target, Lit: i % nlits, Remote: "ok"})
+		}
+		desc := fmt.Sprintf("limits(%s) pre[%s] %d sessions APPEND %s at once, all parked before their write transaction, then released", limStr(lim), mstore.OpsString(pre), n, target)
+		cs := &c17Case{ID: id, Limits: lim, Ops: pre, Inter: desc}
+		ctx.Current("simultaneous "+desc, cs)
+		ir, err := interleaveN(lim, pre, target, 1, n, nlits)
+		if what, ok := mstore.AsProbe(err); ok {
+			res.Fail("simultaneous mailbox-unreadable: "+desc, what, cs)
+			continue
+		}
+		if err != nil {
+			return fmt.Errorf("simultaneous %s: %w", desc, err)
+		}
+		res.Evaluations++
+		res.Count("simultaneous:" + kind)
+		res.Count("simultaneous-accepted:" + ir.aObs.Class)
+		res.Nontrivial(fmt.Sprintf("simultaneous %s-limit p=%d n=%d target=%s", kind, p, n, target))
+		if ir.viol != nil {
+			res.Fail(fmt.Sprintf("simultaneous %s: %d sessions APPEND at once with room for one (%s limit), all parked before their write transaction", ir.viol.Kind, n, kind),
+				ir.viol.Detail+" | "+desc, cs)
+			continue
+		}
+		if ir.aObs.Class != "1-ok" {
+			res.Fail(fmt.Sprintf("simultaneous fitting-operation-refused: %d sessions APPEND at once with room for one (%s limit): %s", n, kind, ir.aObs.Class), desc, cs)
+			continue
+		}
+		names := mstore.NewNames()
+		lines = append(lines, mstore.CoqCase(id, &lim, newLits(nlits), ir.g0, names, ir.steps, ir.final))
 	}
 
 	res.ModelCases = len(lines)
